@@ -47,8 +47,12 @@ NConts(usage) == Len(Ids(usage))
 NewSlot == [rtype |-> "reserve", reserved |-> 0, ucost |-> 0, reqnum |-> 0]
 \* `lim`: the operator's configuration (volumeLimit, volumeLimitPDU, quotaValidityTime, volumeThresholdRate as th/1024) is
 \* copied into the subscriber context when it is created (ChfUe.init) and decides which triggers accompany a grant
-NewUe(n, cfg) == [rg |-> <<>>, notify |-> n, recs |-> <<>>, cdr |-> <<>>, lim |-> cfg]
-DefaultCfg == [vl |-> 0, vlp |-> 0, qvt |-> 0, th |-> 512]
+NewUe(n, cfg) == [rg |-> <<>>, notify |-> n, recs |-> <<>>, cdr |-> <<>>,
+                  lim |-> [vl |-> cfg.vl, vlp |-> cfg.vlp, qvt |-> cfg.qvt, th |-> cfg.th]]
+DefaultCfg == [vl |-> 0, vlp |-> 0, qvt |-> 0, th |-> 512, mqcap |-> 0]
+\* `mqcap`: 2^32 in the behaviour's unit of money (0: out of reach).  The Monetary-Quota, Price and Allowed-Units AVPs of
+\* the rating interface are 32 bits wide: the CHF rates a larger quota as the largest one the AVP carries, and a price
+\* beyond it comes back reduced modulo 2^32 (as-is; C01's domain ends there)
 \* what the reserve branch adds to a grant, in the order of the code: the subscriber's volume limit (deferred report), the PDU
 \* session's volume limit (immediate report; only with the FIRST usage entry of the request), the quota validity time
 LimitTrigs(lim, first) ==
@@ -66,8 +70,8 @@ AbmfReserve(q, ask) == IF ask > q THEN [quota |-> q - q, granted |-> q, fui |-> 
                                   ELSE [quota |-> q - ask, granted |-> ask, fui |-> FALSE]
 AbmfRefund(q, amt)  == q + amt
 AbmfTermDebit(q, amt) == q - amt
-RateReserveAllowed(mq, cost) == mq \div cost
-RateDebitPrice(used, cost)   == used * cost
+RateReserveAllowed(mq, cost, cap) == IF cap > 0 /\ mq >= cap THEN (cap - 1) \div cost ELSE mq \div cost
+RateDebitPrice(used, cost, cap)   == IF cap > 0 THEN (used * cost) % cap ELSE used * cost
 
 -----------------------------------------------------------------------------
 (* sessionChargingReservation: one usage entry.                            *)
@@ -106,7 +110,7 @@ CCEntry(S, u, us, trig, flt, first) ==
         ab    == IF need THEN AbmfReserve(acc.quota, ask) ELSE [quota |-> acc.quota, granted |-> 0, fui |-> FALSE]
         r2    == r1 + ab.granted
         mq    == IF DEV_GrantFromRequest THEN reqQ ELSE Min(reqQ, Max(r2, 0))
-        grant == Min(RateReserveAllowed(mq, cost), reqV)
+        grant == Min(RateReserveAllowed(mq, cost, st.cfg.mqcap), reqV)
         slot2 == [slot1 EXCEPT !.reserved = r2, !.ucost = cost, !.reqnum = @ + 1,
                                !.rtype = IF ab.fui THEN "debit" ELSE @]
         info  == [rg |-> g, granted |-> grant, fui |-> ab.fui,
@@ -123,7 +127,7 @@ CCEntry(S, u, us, trig, flt, first) ==
        [st |-> [st EXCEPT !.ue[u] = [ue1 EXCEPT !.rg[g] = slot2], !.acct[k].quota = ab.quota],
         mui |-> Append(S.mui, info), partial |-> part, panic |-> FALSE]
   ELSE \* debit mode
-    LET price == RateDebitPrice(used, cost)
+    LET price == RateDebitPrice(used, cost, st.cfg.mqcap)
         refund == price < slot1.reserved
         q2    == IF refund THEN AbmfRefund(acc.quota, slot1.reserved - price)
                            ELSE AbmfTermDebit(acc.quota, price - slot1.reserved)
